@@ -12,11 +12,9 @@ Lemma wbn_last_start l : forall o, wbn l = Some (Some o) -> exists x, starts l =
 Proof.
   induction l as [|ev l IH]; intros o H; [done|]. cbn in H. destruct (wbn l) as [c0|] eqn:E; cbn in H; [|done].
   destruct ev; cbn in H |- *.
-  - injection H as ->. destruct (IH o eq_refl) as [x ->]. exists x. by rewrite app_nil_r.
+  all: try (injection H as ->; destruct (IH o eq_refl) as [x ->]; exists x; by rewrite app_nil_r).
   - destruct c0; [done|]. injection H as <-. by exists (starts l).
   - destruct c0 as [o'|]; [|done]. by destruct (decide (o0 = o')).
-  - injection H as ->. destruct (IH o eq_refl) as [x ->]. exists x. by rewrite app_nil_r.
-  - injection H as ->. destruct (IH o eq_refl) as [x ->]. exists x. by rewrite app_nil_r.
 Qed.
 Lemma starts_in l o : o ∈ starts l -> GStart o ∈ l.
 Proof.
